@@ -2194,6 +2194,11 @@ void
 BitArrayT<NCapacity>::set() noexcept {
 	for (uint8_t& unit : _storage)
 		unit = UINT8_MAX;
+
+	constexpr Index REMAINDER = CAPACITY % 8;
+
+	if (REMAINDER)
+		_storage[UNIT_COUNT - 1] = static_cast<uint8_t>((1 << REMAINDER) - 1);
 }
 
 template <unsigned NCapacity>
